@@ -1122,6 +1122,10 @@ def enc_cases(rng, n):
         ver = pick_weighted(rng, [(4, 2), (3, 3), (5, 4), (1, 0), (1, 1), (1, 5)])
         es = rentries(rng, hs, pick_weighted(rng, [(1, 0), (3, 1), (4, 3), (3, 6), (1, 14)]))
         bucket = "enc-valid"
+        if rng.random() < 0.15:      # the 12-bit name length saturates (>= 0xFFF) on an entry that also carries stage / extended flags
+            nm = b"S" + bytes(rng.choice(b"st/") for _ in range(rng.choice([4093, 4094, 4095, 4096, 4200]))).replace(b"//", b"/s").strip(b"/") + b"s"
+            for st in rng.sample([1, 2, 3], rng.randrange(1, 4)):
+                es.append(dict(rentry(rng, hs, nm, st), skip=rng.random() < 0.5))
         r = rng.random()
         for e in es:
             e["czero"] = (e["cs"], e["cn"]) == (0, 0) and rng.random() < 0.7
